@@ -142,6 +142,61 @@ MUTANTS = [
 ]
 
 REFACTORS = [
+    ("C18-bind-result-first", "", "receive_tokens result bound to a local before the match",
+     [(SQ + "ibc/ics20_transfer.rs",
+       "        let ack = match receive_tokens(&mut delta, &msg.packet).await {",
+       "        let transfer_result = receive_tokens(&mut delta, &msg.packet).await;\n        let ack = match transfer_result {", 0)]),
+    ("C13-reorder-failure-arm", "", "removal-cache report moved before the contained_txs removal (demotion arm)",
+     [(SQ + "mempool/mod.rs",
+       "                        self.contained_txs.remove(&tx_id);\n                        self.comet_bft_removal_cache\n                            .add(tx_id, RemovalReason::InternalError);\n                        self.metrics.increment_internal_logic_error();\n                        error!(\n                            address = %telemetry::display::base64(&address_bytes),\n                            current_nonce, %tx_id, %error,\n                            \"failed to demote transaction during maintenance\"",
+       "                        self.comet_bft_removal_cache\n                            .add(tx_id, RemovalReason::InternalError);\n                        self.contained_txs.remove(&tx_id);\n                        self.metrics.increment_internal_logic_error();\n                        error!(\n                            address = %telemetry::display::base64(&address_bytes),\n                            current_nonce, %tx_id, %error,\n                            \"failed to demote transaction during maintenance\"", 0)]),
+    ("C14-early-return", "", "authority end_block: post-Aspen case returns early",
+     [(SQ + "authority/component.rs",
+       "        if use_pre_aspen_validator_updates(state)\n            .await\n            .wrap_err(\"failed to determine upgrade status\")?\n        {\n            let validator_updates = state\n                .get_block_validator_updates()\n                .await\n                .wrap_err(\"failed getting validator updates\")?;\n\n            let mut current_set = state\n                .pre_aspen_get_validator_set()\n                .await\n                .wrap_err(\"failed getting validator set\")?;\n            current_set.apply_updates(validator_updates);\n\n            state\n                .pre_aspen_put_validator_set(current_set)\n                .wrap_err(\"failed putting validator set\")?;\n        }\n        Ok(())",
+       "        if !use_pre_aspen_validator_updates(state)\n            .await\n            .wrap_err(\"failed to determine upgrade status\")?\n        {\n            return Ok(());\n        }\n        let validator_updates = state\n            .get_block_validator_updates()\n            .await\n            .wrap_err(\"failed getting validator updates\")?;\n\n        let mut current_set = state\n            .pre_aspen_get_validator_set()\n            .await\n            .wrap_err(\"failed getting validator set\")?;\n        current_set.apply_updates(validator_updates);\n\n        state\n            .pre_aspen_put_validator_set(current_set)\n            .wrap_err(\"failed putting validator set\")?;\n        Ok(())", 0)]),
+    ("C11-try-to-if-let-err", "", "state write `?` rewritten as if let Err(..) return",
+     [(RL + "relayer/submission.rs",
+       "        state\n            .write(&state_file_path, &temp_file_path)\n            .await\n            .wrap_err(\"failed commiting submission started state to disk\")?;",
+       "        if let Err(error) = state.write(&state_file_path, &temp_file_path).await {\n            return Err(error.wrap_err(\"failed commiting submission started state to disk\"));\n        }", 0)]),
+    ("C10-cmp-match-to-if-chain", "", "soft height three-way match rewritten as two ifs",
+     [(CD + "executor/mod.rs",
+       "        match executable_block.height.cmp(&expected_height) {\n            std::cmp::Ordering::Less => {\n                info!(\n                    expected_height.sequencer_block = %expected_height,\n                    \"block received was stale because firm blocks were executed first; dropping\",\n                );\n                return Ok(());\n            }\n            std::cmp::Ordering::Greater => bail!(\n                \"block received was out-of-order; was a block skipped? expected: \\\n                 {expected_height}, actual: {}\",\n                executable_block.height\n            ),\n            std::cmp::Ordering::Equal => {}\n        }",
+       "        if executable_block.height < expected_height {\n            info!(\n                expected_height.sequencer_block = %expected_height,\n                \"block received was stale because firm blocks were executed first; dropping\",\n            );\n            return Ok(());\n        }\n        if executable_block.height > expected_height {\n            bail!(\n                \"block received was out-of-order; was a block skipped? expected: \\\n                 {expected_height}, actual: {}\",\n                executable_block.height\n            );\n        }", 0)]),
+    ("C10-firm-ensure-to-if", "", "firm height ensure! rewritten as if/bail",
+     [(CD + "executor/mod.rs",
+       "        ensure!(\n            block_height == expected_height,\n            \"expected block at sequencer height {expected_height}, but got {block_height}\",\n        );",
+       "        if block_height != expected_height {\n            bail!(\"expected block at sequencer height {expected_height}, but got {block_height}\");\n        }", 0)]),
+    ("C01-hoist-amount", "", "transfer amount hoisted into a local used for both legs",
+     [(SQ + "checked_actions/transfer.rs",
+       "        state\n            .decrease_balance(&self.tx_signer, &self.action.asset, self.action.amount)\n            .await\n            .wrap_err(\"failed to decrease signer account balance\")?;\n        state\n            .increase_balance(&self.action.to, &self.action.asset, self.action.amount)",
+       "        let amount = self.action.amount;\n        state\n            .decrease_balance(&self.tx_signer, &self.action.asset, amount)\n            .await\n            .wrap_err(\"failed to decrease signer account balance\")?;\n        state\n            .increase_balance(&self.action.to, &self.action.asset, amount)", 0)]),
+    ("C03-swap-nonce-compare", "", "nonce guard with swapped operands",
+     [(SQ + "checked_transaction/mod.rs", "if current_nonce != tx_nonce {", "if tx_nonce != current_nonce {", 0)]),
+    ("C04-destructure-action", "", "bridge lock destructures the action before moving funds",
+     [(SQ + "checked_actions/bridge/bridge_lock.rs",
+       "        state\n            .decrease_balance(&self.tx_signer, &self.action.asset, self.action.amount)\n            .await\n            .wrap_err(\"failed to decrease signer account balance\")?;\n        state\n            .increase_balance(&self.action.to, &self.action.asset, self.action.amount)",
+       "        let action = &self.action;\n        state\n            .decrease_balance(&self.tx_signer, &action.asset, action.amount)\n            .await\n            .wrap_err(\"failed to decrease signer account balance\")?;\n        state\n            .increase_balance(&action.to, &action.asset, action.amount)", 0)]),
+    ("C05-invert-skip-branch", "", "if !skip {reset} rewritten as if skip {} else {reset}",
+     [(SQ + "app/mod.rs", "        if !skip_execution {\n            // clear out state before execution.\n            self.update_state_for_new_round(&storage);\n        }",
+       "        if skip_execution {\n            trace!(\"block was already executed\");\n        } else {\n            // clear out state before execution.\n            self.update_state_for_new_round(&storage);\n        }", 0)]),
+    ("C08-swap-walk-compare", "", "audit walk direction test with swapped operands",
+     [(MK + "audit.rs", "            if parent > i {\n                acc = crate::combine(&acc, sibling);",
+       "            if i < parent {\n                acc = crate::combine(&acc, sibling);", 0)]),
+    ("C09-let-else-to-match", "", "validator lookup let-else rewritten as match",
+     [(CD + "celestia/block_verifier.rs",
+       "        let Some(validator) = validator_map.get(validator_address) else {\n            return Err(QuorumError::NoSuchValidator {\n                validator: *validator_address,\n            });\n        };",
+       "        let validator = match validator_map.get(validator_address) {\n            Some(validator) => validator,\n            None => {\n                return Err(QuorumError::NoSuchValidator {\n                    validator: *validator_address,\n                })\n            }\n        };", 0)]),
+    ("C09-contains-then-insert", "", "duplicate check split into contains + insert",
+     [(CD + "celestia/block_verifier.rs",
+       "        if !seen_validators.insert(*validator_address) {\n            return Err(QuorumError::DuplicateValidator {\n                validator: *validator_address,\n            });\n        }",
+       "        if seen_validators.contains(validator_address) {\n            return Err(QuorumError::DuplicateValidator {\n                validator: *validator_address,\n            });\n        }\n        seen_validators.insert(*validator_address);", 0)]),
+    ("C12-swap-size-compare", "", "payload size comparison with swapped operands",
+     [(RL + "relayer/write/conversion.rs", "        if payload_candidate.compressed_size <= MAX_PAYLOAD_SIZE_BYTES {",
+       "        if MAX_PAYLOAD_SIZE_BYTES >= payload_candidate.compressed_size {", 0)]),
+    ("C15-ensure-to-if-bail", "", "quorum ensure! rewritten as if/bail",
+     [(SQ + "app/vote_extension.rs",
+       "    ensure!(\n        submitted_voting_power >= required_voting_power,\n        \"submitted voting power is less than required voting power\",\n    );",
+       "    if submitted_voting_power < required_voting_power {\n        bail!(\"submitted voting power is less than required voting power\");\n    }", 0)]),
     ("C02-ensure-to-if-bail", "", "ensure! rewritten as if/bail",
      [(SQ + "checked_actions/sudo_address_change.rs",
        "        ensure!(\n            &sudo_address == self.tx_signer.as_bytes(),\n            \"transaction signer not authorized to change sudo address\",\n        );",
